@@ -6,7 +6,9 @@
    checks of parser.rs: sparql_update_core.  No proofs in this file.
 
    Abstractions: dictionary identifiers are replaced by the lexical terms they denote (the
-   dictionary is injective: C15), so the dictionary is the set of known terms; every identifier
+   dictionary is injective: C15), so the dictionary is the set of known lexical terms; quoted
+   triples are structural terms `Qt s p o` (the quoted-triple store is an injective encoding of
+   them) whose dictionary entries are their atoms; every identifier
    of the dataset is decodable; BTreeSet<Quad> is a duplicate-free list in first-insertion order
    (Proofs.v: the result does not depend on the order); the process-global blank-node counter is
    the component `next` of the state. *)
@@ -46,7 +48,8 @@ Definition apply_mutations (dels inss : list quad) (D : dataset) : dataset * (N 
 
 (* ---- dictionary and blank-node supply ---- *)
 Record istate := IS { i_dict : list term; i_next : N }.
-Definition encode (t : term) (st : istate) : istate := IS (add_end term_eqb (i_dict st) t) (i_next st).
+(* dictionary.encode of every lexical value the term is made of (quoted triples live in the quoted-triple store) *)
+Definition encode (t : term) (st : istate) : istate := IS (union term_eqb (i_dict st) (atoms t)) (i_next st).
 
 (* allocate_blank_node: loop { n = NEXT.fetch_add(1); if dictionary contains the name { continue } return encode } *)
 Fixpoint alloc_loop (fuel : nat) (l : N) (n : N) (d : list term) : option (term * N) :=
@@ -72,7 +75,7 @@ Definition e_fuel : N := 3.               (* allocator out of fuel - never happe
 Definition e_parse : N := 10.             (* the request does not parse *)
 Definition e_not_update : N := 11.        (* "expected a SPARQL Update operation" *)
 
-Definition m_term (insert : bool) (sol : solution) (t : tterm) (bl : blmap) (st : istate)
+Fixpoint m_term (insert : bool) (sol : solution) (t : tterm) (bl : blmap) (st : istate)
   : istate * blmap * ires (option term) :=
   match t with
   | TVar v => (st, bl, IOut (lookup v sol))
@@ -87,17 +90,33 @@ Definition m_term (insert : bool) (sol : solution) (t : tterm) (bl : blmap) (st 
            end
   | TConst c => (encode c st, bl, IOut (Some c))
   | TKwA => (encode a_word st, bl, IOut (Some a_word))   (* compile_term("a"): the word itself, also in predicate position *)
+  | TQuoted s p o =>                                     (* components left to right; the first unbound one ends it *)
+    match m_term insert sol s bl st with
+    | (st1, bl1, IErr e) => (st1, bl1, IErr e)
+    | (st1, bl1, IOut None) => (st1, bl1, IOut None)
+    | (st1, bl1, IOut (Some s')) =>
+      match m_term insert sol p bl1 st1 with
+      | (st2, bl2, IErr e) => (st2, bl2, IErr e)
+      | (st2, bl2, IOut None) => (st2, bl2, IOut None)
+      | (st2, bl2, IOut (Some p')) =>
+        match m_term insert sol o bl2 st2 with
+        | (st3, bl3, IErr e) => (st3, bl3, IErr e)
+        | (st3, bl3, IOut None) => (st3, bl3, IOut None)
+        | (st3, bl3, IOut (Some o')) => (st3, bl3, IOut (Some (Qt s' p' o')))
+        end
+      end
+    end
   end.
 
 (* instantiate_quad: subject, predicate, object, graph in this order; the legality filters apply to
-   variable positions only; an unbound variable or an illegal value drops the quad (Ok(None)) *)
+   variable positions and to quoted-triple values; an unbound variable or an illegal value drops the quad (Ok(None)) *)
 Definition m_quad (insert : bool) (D : dataset) (sol : solution) (q : tquad) (bl : blmap) (st : istate)
   : istate * blmap * ires (option quad) :=
   match m_term insert sol (tq_s q) bl st with
   | (st1, bl1, IErr e) => (st1, bl1, IErr e)
   | (st1, bl1, IOut None) => (st1, bl1, IOut None)
   | (st1, bl1, IOut (Some s)) =>
-    if is_tvar (tq_s q) && negb (legal_subject D s) then (st1, bl1, IOut None) else
+    if (is_tvar (tq_s q) || is_qt s) && negb (legal_subject D s) then (st1, bl1, IOut None) else
     match m_term insert sol (tq_p q) bl1 st1 with
     | (st2, bl2, IErr e) => (st2, bl2, IErr e)
     | (st2, bl2, IOut None) => (st2, bl2, IOut None)
@@ -107,6 +126,7 @@ Definition m_quad (insert : bool) (D : dataset) (sol : solution) (q : tquad) (bl
       | (st3, bl3, IErr e) => (st3, bl3, IErr e)
       | (st3, bl3, IOut None) => (st3, bl3, IOut None)
       | (st3, bl3, IOut (Some o)) =>
+        if is_qt o && negb (legal_object D o) then (st3, bl3, IOut None) else
         match tq_g q with
         | GDefault => (st3, bl3, IOut (Some (s, p, o, None)))
         | GConst g => (encode g st3, bl3, IOut (Some (s, p, o, Some g)))
